@@ -1,10 +1,23 @@
-HOOK_COMMITS = ["7de202d", "7f6c320", "bd5f58f", "f5c511f", "6cf08df"]
-FIX_COMMITS = ["7a73b90", "307c7cf", "73e9739", "b6ad768", "06a0422", "37593fd", "b26bda1", "ef4414e", "83534a3", "9d32858", "8df6799", "bfa46be", "d5169bc", "e984a30", "8e975df", "0e9fd95", "93bc5a2", "0df18c2", "dae6c16", "f32a1a0", "6b14b06", "641f662", "5fd891f", "12b678f", "5af4846", "35b9151", "1a0d573", "4dd26bc", "3419442", "a44aef0", "bfa15ff", "db4d047"]
+HOOK_COMMITS = ["7de202d", "7f6c320", "bd5f58f", "f5c511f", "6cf08df", "6a57454"]
+FIX_COMMITS = ["7a73b90", "307c7cf", "73e9739", "b6ad768", "06a0422", "37593fd", "b26bda1", "ef4414e", "83534a3", "9d32858", "8df6799", "bfa46be", "d5169bc", "e984a30", "8e975df", "0e9fd95", "93bc5a2", "0df18c2", "dae6c16", "f32a1a0", "6b14b06", "641f662", "5fd891f", "12b678f", "5af4846", "35b9151", "1a0d573", "4dd26bc", "3419442", "a44aef0", "bfa15ff", "db4d047", "05ea952", "1883869", "befdf8c"]
 
 NOTE_COMMON = ("Trusted: Lean kernel (axioms propext/Classical.choice/Quot.sound only), the hand-written model's "
                "fidelity outside the sampled correspondence, rustc/std and third-party crates as black boxes, the guarded hooks.")
 
 CLAIMS = {
+    "C20": {
+        "level": "Kernel-checked for every command content (verbs and motions are opaque), every count, every register and every in-between history: '.' after a "
+                 "repeatable X hands exactly X to the editor; non-repeatable commands (motions, yanks, searches, failed commands) in between leave the recorded "
+                 "replay unchanged; a count given to '.' yields X with that count where the parser would put it (normalize_counts) and replaces X's own count; k dots "
+                 "execute X k times; '.' after an insert/replace session replays opening command, typed text (session count times) and <esc>, with a count going to "
+                 "the motion of a change and to the repetitions otherwise; equal command lists from equal states have equal effects for any editor. Every run "
+                 "compares histories 'X, between, dots' with 'X, between, X retyped' through the real key loop (final text, cursor, all registers), compares the "
+                 "commands each '.' hands to LineBuf::exec_cmd with those of the retyped X, and runs the Lean repeat machine on the recorded X against the commands "
+                 "the '.' really executed.",
+        "note": NOTE_COMMON + " What a command does once handed to LineBuf::exec_cmd is outside C20 (C08 / C02). Visual-mode changes repeated with '.' (range capture) "
+                "are not in the generated set. Four genuine defects were repaired ('.' with a count, g? not repeatable, session replay, and counts on a/A/I).",
+        "technique": "Lean 4 proof (repeat machine: recorded replay -> commands executed; induction over in-between commands and chains) + metamorphic check and command-trace correspondence through the key-loop hook",
+    },
     "C11": {
         "level": "Kernel-checked for every key engine (per-key transition, end-of-argument flush and reset are parameters): if every command of a sequence is complete "
                  "(from a settled state - flush and reset are no-ops - its keys reach a settled state), then every grouping of the commands into arguments, with or "
